@@ -419,6 +419,20 @@ func (d *cliDriver) oneCase(seed int64, id int) {
 			panic(err)
 		}
 		line("diff", map[string]interface{}{"src": snapshot(it.srcs[0], srcCfg(it.srcs[0]), mp), "dst": snapshot(it.dst, it.dcfg, mp), "k": res.Class, "msg": res.Msg, "recs": recsJSON(got, mp)})
+		// a file missing on the destination side, the destination being a server: still a reported difference
+		if d.srv == nil || !d.srv.alive() {
+			d.srv.stop()
+			d.srv, err = startServer(d.root)
+			if err != nil {
+				panic(err)
+			}
+		}
+		if sel <= k && (u == 0 || f <= u) {
+			relDst, _ := filepath.Rel(d.root, e.destBase)
+			c2 := &cmd.DiffCommand{SrcBase: e.srcBase, SrcRelPath: "item1/s1.wsp", DestBase: d.srv.url, DestRelPath: filepath.Join(relDst, "item1", "missing.wsp"), From: from, Until: until, ArchiveID: arch}
+			res = e.runCmd(c2, &c2.TextOut)
+			line("diff", map[string]interface{}{"src": snapshot(it.srcs[0], srcCfg(it.srcs[0]), mp), "dst": sfile{Absent: true}, "k": res.Class, "msg": res.Msg, "recs": [][]interface{}{}, "via": "http-dest-missing"})
+		}
 	case "C10":
 		it := items[0]
 		c := &cmd.SumCommand{SrcBase: e.srcBase, ItemPattern: "item1", SrcPattern: "s*.wsp", From: from, Until: until, ArchiveID: arch, ShowHeader: false}
